@@ -380,8 +380,7 @@ def run(chk):
         cls = source.enclosing_class(s)
         gs = guards(s)
         if cls is not None and cls.name == "Worker" and fn.name == "receiveMsg_CompleteCurrentTask":
-            ok = any((not pol) and isinstance(t, ast.Call) and last_attr(t.func) == "at_joinpoint" for t, pol in gs)
-            chk.ob("O1.6", "Worker: complete.set() only when not at a join point", ok, s, f"guards {[(u(t), p) for t, p in gs]}")
+            continue  # decided below as a truth table over (at join point, Drive pending)
         elif cls is not None and cls.name == "AsyncExecutor" and fn is ex_call:
             in_finally = any(isinstance(a, ast.Try) and any(s in list(ast.walk(fb)) for fb in a.finalbody) for a in source.ancestors(s))
             names = []
@@ -392,6 +391,65 @@ def run(chk):
             chk.ob("O1.6", "executor: complete.set() only for a task that completes its parent", ok, s, f"in finally={in_finally}, cause={names}")
         else:
             chk.ob("O1.6", f"complete.set() in {source.qualname(s)}", False, s, "set site outside the two sanctioned places")
+
+    # Worker handler: truth table over (J = at join point, S = Drive received but start wake-up pending)
+    from sa.sym import UnknownAtom, truth_table
+
+    hct = W.methods.get("receiveMsg_CompleteCurrentTask")
+    if hct is None:
+        raise AnchorMissing("Worker.receiveMsg_CompleteCurrentTask")
+    hsets = [s for s in sets if source.enclosing_func(s) is hct]
+
+    def classify(n):
+        if isinstance(n, ast.Call) and u(n.func) == "self.at_joinpoint":
+            return "J"
+        if is_self_attr(n, "start_driving"):
+            return "S"
+        return None
+
+    from sa.sym import atoms_of
+    import itertools
+
+    free = []
+    for s_ in hsets:
+        for test, pol in guards(s_):
+            for a in atoms_of(test):
+                if classify(a) is None and u(a) not in free:
+                    free.append(u(a))
+
+    def classify2(n):
+        c = classify(n)
+        if c is not None:
+            return c
+        return u(n) if u(n) in free else None
+
+    names = ["J", "S"] + free
+    table_all, table_any = {}, {}
+    for J in (False, True):
+        for S in (False, True):
+            results = []
+            for fv in itertools.product([False, True], repeat=len(free)):
+                env = dict(zip(names, (J, S) + fv))
+                reach = False
+                for s_ in hsets:
+                    val = True
+                    for test, pol in guards(s_):
+                        rows = truth_table(test, names, classify2)
+                        v = [r for e, r in rows if e == env][0]
+                        val = val and (v == pol)
+                    reach = reach or val
+                results.append(reach)
+            table_all[(J, S)] = all(results)
+            table_any[(J, S)] = any(results)
+    want = {(False, False): True, (False, True): True, (True, True): True, (True, False): False}
+    for k, v in want.items():
+        what = {(False, False): "running tasks: complete must be set", (False, True): "running tasks (flag irrelevant): complete must be set",
+                (True, True): "Drive received, start wake-up pending: the request concerns the tasks about to start and must be remembered",
+                (True, False): "waiting at the join point after finishing the step: the request is stale and must be ignored"}[k]
+        ok = table_all[k] if v else not table_any[k]
+        chk.ob("O1.6", f"CompleteCurrentTask handler at (join point={k[0]}, drive pending={k[1]})", ok, hct,
+               f"{what}; handler sets complete: always={table_all[k]} sometimes={table_any[k]}" + (f" (depends on extra condition(s) {free})" if free else ""),
+               key=f"{_D}:Worker.receiveMsg_CompleteCurrentTask:table{k}")
 
     # ---- O1.7 wake-up chain has no dead end ----------------------------------------------------------------------------------------------
     chk.rule("O1.7", "every normal-exit path of the wake-up chain routines (worker / task executor WakeupMessage handlers, Worker.drive, handlers that submit "
@@ -514,8 +572,11 @@ VARIANTS = [
       "        joinpoints_completing_parent = [a for a in task_allocations if a.task.preceding_task_completes_parent]\n        self.complete_current_task_sent = False\n", "O1.4"),
     V("complete event not cleared at join point", "break", _D, "            self.cancel.clear()\n            self.complete.clear()\n            self.executor_future = None", "            self.cancel.clear()\n            self.executor_future = None", "O1.5"),
     V("future not awaited", "break", _D, "            if self.executor_future is not None:\n                self.executor_future.result()\n            self.send_samples()", "            self.send_samples()", "O1.5"),
-    V("complete set even at join point", "break", _D, "        if self.at_joinpoint():\n            self.logger.info(\n                \"Worker[%s] has received CompleteCurrentTask but is currently at join point at index [%d]. Ignoring.\",\n                str(self.worker_id),\n                self.current_task_index,\n            )\n        else:",
-      "        if False:\n            pass\n        else:", "O1.6"),
+    V("complete set even at a stale join point", "break", _D, "        elif self.at_joinpoint():\n            self.logger.info(\n                \"Worker[%s] has received CompleteCurrentTask but is currently at join point at index [%d]. Ignoring.\",",
+      "        elif False:\n            self.logger.info(\n                \"Worker[%s] has received CompleteCurrentTask but is currently at join point at index [%d]. Ignoring.\",", "O1.6"),
+    V("F13: request between Drive and wake-up ignored", "break", _D, "        if self.at_joinpoint() and self.start_driving:", "        if False:", "O1.6"),
+    V("seed m2: complete only if future running", "break", _D, "            self.logger.info(\n                \"Worker[%s] has received CompleteCurrentTask. Completing tasks at index [%d].\", str(self.worker_id), self.current_task_index\n            )\n            self.complete.set()",
+      "            if self.executor_future is not None and self.executor_future.running():\n                self.complete.set()", "O1.6"),
     V("executor sets complete unconditionally", "break", _D, "            elif any_task_completes_parent:\n                self.logger.info(", "            else:\n                self.logger.info(", "O1.6"),
     V("no wakeup after submit", "break", _D, "                self.executor_future = self.pool.submit(executor)\n                self.wakeupAfter(datetime.timedelta(seconds=self.wakeup_interval))", "                self.executor_future = self.pool.submit(executor)", "O1.7"),
     V("no drive after future done", "break", _D, "                    self.executor_future = None\n                    self.drive()\n            else:", "                    self.executor_future = None\n            else:", "O1.7"),
